@@ -73,3 +73,8 @@ Inductive exec_scope := ExecPerRunner | ExecShared | ExecScopeUnknown.
 (* lab.TaskState.complete_task / tasks._task_set_result_meta: is the result_meta of a completed task assigned to every instance
    unconditionally (MarkAlways), or only to instances that carry none yet (MarkIfUnset)? *)
 Inductive mark_mode := MarkAlways | MarkIfUnset | MarkUnknown.
+
+(* ProcessRunner.__init__: is the queue that carries the workers' log records to the caller a Manager queue (a put returns once the
+   record is in the queue: what a task put before handing back its result is there before the result is) or a plain
+   multiprocessing.Queue (a put only fills a buffer that a feeder thread writes out later)? *)
+Inductive log_queue_kind := LogQueueSync | LogQueueAsync | LogQueueUnknown.
